@@ -126,6 +126,14 @@ fn run_shape<OC: GenericConfig<D, F = F>>(s: &Value, selftest_all: bool) -> Vec<
                     cases.push((p, own_vd.clone(), json!({"second": true})));
                 }
             }
+        } else if let Some(rest) = c.strip_prefix("shape:") {
+            // shape classes: one list with one surplus element / one element removed
+            if let Some((list, dir)) = rest.rsplit_once(':') {
+                let mut p = honest.clone();
+                if let Some(d) = shape_tamper(&mut p, list, dir == "surplus", &mut r) {
+                    cases.push((p, own_vd.clone(), d));
+                }
+            }
         } else if c == "pow_short1" || c == "pow_exact" {
             // boundary of the grinding condition: exactly pow_bits - 1 / exactly pow_bits leading zeros
             let bits = common.config.fri_config.proof_of_work_bits;
